@@ -55,7 +55,7 @@ prop(
     title="requests serialised faithfully",
     explanation="include_request_headers equals the default-header spec function (Host first iff absent, IP-literal bracketed, port iff not the default; Content-Length / Transfer-Encoding iff neither present); Request() applies the target extension only to the target; h11.Request gets exactly method/target/headers of the request; _send_event writes exactly h11's output once; one Data event per body chunk in order then exactly one EndOfMessage; a rejected head writes nothing; HTTP/2 header list and end_stream spec",
     trusted=[A_H11, A_H2, A_NET, A_SYNC],
-    not_decided=['a header block that h2 rejects while encoding leaves the HPACK encoder state changed (the assumed h2 contract "a raising call leaves the state unchanged" is false there): the next request on the connection is undecodable - reproduced (design_probes/w4_preexisting/C03_preexisting_1.py), not stated as an obligation', "the h11/h2 encoders themselves (assumed; bounded audit of the send() round trip)"],
+    not_decided=["the h11/h2 encoders themselves (assumed; bounded audit of the send() round trip)"],
     bounded=["audit/h11_contract.py, audit/h2_contract.py (thorough tier)"],
     audits=[AUD_H11, AUD_H2],
 )
